@@ -448,7 +448,7 @@ def run_timed_api(E, case, prop):
     class Timedelta:
         def __init__(self, x):
             if isinstance(x, str):
-                table = {"1ns": 1, "1us": 10**3, "1ms": 10**6, "1s": 10**9}
+                table = {"1ns": 1, "1us": 10**3, "1ms": 10**6, "1s": 10**9, "1500us": 1_500_000, "500ms": 500_000_000, "2500ms": 2_500_000_000}
                 if x not in table:
                     raise OutsideModel(f"pd.Timedelta({x!r})")
                 self.value = table[x]
@@ -461,6 +461,13 @@ def run_timed_api(E, case, prop):
 
     PDX.Timedelta = Timedelta
     N = case["N"]
+    hl = case.get("halflife", f"1{unit}")
+    hl_ns = {"1ns": 1, "1us": 10**3, "1ms": 10**6, "1s": 10**9, "1500us": 1_500_000, "500ms": 500_000_000, "2500ms": 2_500_000_000}[hl]
+    dmul = case.get("dmul", 1)                 # gaps are multiples of dmul ticks so that gap / halflife is a whole number
+    per_tick = Fraction(ns_per * dmul, hl_ns)  # halflives per allowed gap step
+    if per_tick.denominator != 1:
+        raise Unsupported("gap / halflife must be a whole number")
+    per_tick = int(per_tick)
     for codes in all_codes(N, 1, False):
         inp = Inputs()
         xs = inp.values("x", N, "float64", nullable=False)
@@ -468,24 +475,35 @@ def run_timed_api(E, case, prop):
         ds = inp.ints("d", N, 0, 3)
         inp.vars["k"] = ("const", list(codes), "int64")
         for i in range(1, N):
-            inp.pre.append(ts[i] == ts[i - 1] + ds[i])        # d units of the array's own time unit
+            inp.pre.append(ts[i] == ts[i - 1] + ds[i] * dmul)        # d * dmul units of the array's own time unit
         rt = fresh_runtime()
-        install_exp(rt, maxd=3 * N)
+        install_exp(rt, maxd=3 * N * per_tick)
         try:
             em["pd"] = PDX
-            out = em["ema_grouped"](A(list(codes), "int64"), 1, A(xs, "float64").tag("input:values"), halflife=f"1{unit}",
+            out = em["ema_grouped"](A(list(codes), "int64"), 1, A(xs, "float64").tag("input:values"), halflife=hl,
                                     times=A(ts, f"M8[{unit}]").tag("input:times"))
+        except (Unsupported, OutsideModel):
+            raise
+        except Exception as e:      # noqa: BLE001 - a valid halflife / times combination is rejected
+            from ..harness import solve_exists
+            r_, m_ = solve_exists(list(inp.pre), True)
+            res["verdict"] = "sat"
+            res["subcases"] += 1
+            if len(res["candidates"]) < 3:
+                res["candidates"].append({"signature": f"{prop}:raises:{type(e).__name__}:ema_timed_unit:{unit}:{hl}", "case": dict(case, codes=list(codes)), "kind": "raises",
+                                          "inputs": jsonable(inp.eval(m_)) if m_ is not None else {}, "labels": [f"{type(e).__name__}: {str(e)[:150]}"]})
+            continue
         finally:
             em["pd"] = saved_pd
 
         def beta_pow(j, i, ts=ts):
-            diff = ts[i] - ts[j]          # in units; halflife is one unit
+            diff = ts[i] - ts[j]          # in ticks of the array's unit; (diff / dmul) * per_tick halflives
             e = z3.RealVal(0)
             for m in range(3 * N, -1, -1):
-                e = z3.If(diff == m, z3.RealVal(Fraction(1, 2 ** m)), e)
+                e = z3.If(diff == m * dmul, z3.RealVal(Fraction(1, 2 ** (m * per_tick))), e)
             return SF(False, e)
         bl = ema_spec_bads(codes, xs, [True] * N, out.cells, beta_pow, lambda j: True, f"ema_grouped(times=M8[{unit}])")
-        _decide_into(res, inp, bl, rt, case, prop, {"codes": list(codes), "unit": unit}, sig=f"ema_timed_unit:{unit}")
+        _decide_into(res, inp, bl, rt, case, prop, {"codes": list(codes), "unit": unit}, sig=f"ema_timed_unit:{unit}:{hl}")
     res["symex_s"] = time.time() - t0 - res["solver_s"]
     return _finish(res, E)
 
@@ -633,9 +651,12 @@ def replay(case, conc, cand=None):
             unit = case["unit"]
             xs = [float(c) for c in to_float_cells(conc["x"])]
             t = [int(x) for x in conc["t"]]
-            out = rem.ema_grouped(real_np.array(codes, dtype="int64"), 1, real_np.array(xs), halflife=f"1{unit}",
+            hl = case.get("halflife", f"1{unit}")
+            hl_ns = {"1ns": 1, "1us": 10**3, "1ms": 10**6, "1s": 10**9, "1500us": 1_500_000, "500ms": 500_000_000, "2500ms": 2_500_000_000}[hl]
+            ns_per = {"ns": 1, "us": 10**3, "ms": 10**6, "s": 10**9}[unit]
+            out = rem.ema_grouped(real_np.array(codes, dtype="int64"), 1, real_np.array(xs), halflife=hl,
                                   times=real_np.array(t, dtype="int64").view(f"M8[{unit}]"))
-            ref = _ref(codes, xs, [True] * len(xs), lambda j, i: 2.0 ** (-(t[i] - t[j])))
+            ref = _ref(codes, xs, [True] * len(xs), lambda j, i: 2.0 ** (-(t[i] - t[j]) * ns_per / hl_ns))
             bad = _cmp(list(out), ref, codes)
             return bool(bad), {"real": jsonable(list(out)), "reference": jsonable(ref), "wrong_rows": bad, "t": t, "unit": unit}
     except Exception as e:      # noqa: BLE001
